@@ -17,7 +17,8 @@ CHECKS["C02"] = dict(
           "per class shows the documented rule (closed formula) agrees with the observed outcome for every hierarchy and every integer priority "
           "assignment in it; exhaustion of each shape's input space is a solver verdict. Candidates are replayed on real classes before reporting."),
     note=("Trusted: z3 5.1.0, CPython 3.12, the SymMeta/SymInt stubs (validated by native replays of sampled passing classes), the closed-form oracle. "
-          "Bounds: n<=4 classes (5 sampled in thorough), <=3-4 methods, 1-2 positions + one keyword-only parameter; quick tier samples shapes. "
+          "Bounds: n<=4 classes (5 sampled in thorough), <=3-4 methods, 1-2 positions (3 sampled in thorough) + one keyword-only parameter; quick tier samples "
+          "shapes (970); thorough ~21000 shapes in ~15 min. "
           "Recorded finding C02-integer-levels is excluded by a mechanism-level predicate inside the query."),
 )
 
@@ -64,9 +65,10 @@ CHECKS["C07"] = dict(
           "chain of entered methods is compared step by step, by an UNSAT query, with the documented meaning: the next method is the rule's winner among "
           "the applicable methods the caller beats; 'No method' iff that set is empty, 'Ambiguous' iff it has no winner; a caller not applicable to the "
           "forwarded arguments behaves like a fresh call; no method is visited twice."),
-    note=("Bounds: 3 classes (4 in the four-method family), 3-4 methods, 1-2 positions; shapes sampled in the quick tier (610 of 8.5k), all in thorough. "
+    note=("Bounds: 3 classes (4 in the four-method family), 3-4 methods, 1-2 positions, plain functions / methods with self / methods made by one factory; "
+          "shapes sampled in the quick tier (610 of 9.2k), all in thorough. "
           "Don't-care: caller tied with another applicable method for the forwarded arguments. Recorded findings excluded by mechanism-level predicates: "
-          "C02-integer-levels (per step), C07-fnext-drops-self, C07-upper-rank-tie. Variants/mixins supplying part of the chain are exercised by C08/C16."),
+          "C02-integer-levels (per step), C07-fnext-drops-self, C07-fnext-shared-code, C07-upper-rank-tie. Variants/mixins supplying part of the chain are exercised by C08/C16."),
 )
 
 CHECKS["C04"] = dict(
@@ -77,8 +79,8 @@ CHECKS["C04"] = dict(
           "function freshly built from the same methods under the same model. Method sets include call_next chains, swallowed continuation errors, "
           "call_next/recurse with other arguments and value-dependent methods, so continuation entries and remembered errors exist. One exploration "
           "per method set; the solver exhausts hierarchies, priorities and histories up to the budget."),
-    note=("Bounds: 3 classes, 3 methods, 1 position, histories of 4 calls (2 chosen + 2 repeats), arguments from {K0, K1, object()}; shapes sampled "
-          "(110 quick / 2500 thorough of 3.9k). A differential oracle sees history dependence only, not a rule violation present from the first call "
+    note=("Bounds: 3 classes, 1-3 methods, 1-2 positions, histories of 4 calls (2 chosen + 2 repeats), arguments from {K0, K1, object()}; shapes sampled "
+          "(100 quick / 3700 thorough). A differential oracle sees history dependence only, not a rule violation present from the first call "
           "(that is C02/C07/C10)."),
 )
 CHECKS["C05"] = dict(
@@ -114,7 +116,7 @@ CHECKS["C20"] = dict(
           "every answer of a predicate, hook or issubclass on a harness class is a solver variable and every consultation is counted. On each path "
           "class a repeated call that had succeeded must not move the counter (nor compare priorities); after a registration the function is "
           "re-warmed and the same must hold."),
-    note=("Bounds: 3 classes, 3 methods (+1 late), 1 position, arguments K0/K1/object(); per-shape exploration budget 4 s quick / 60 s thorough: "
+    note=("Bounds: 3 classes, 3 methods (+1 late), 1 position, arguments K0/K1/object(); 160 / 640 method sets, per-shape exploration budget 4 s quick / 25 s thorough: "
           "shapes whose space is not exhausted are reported as inconclusive counts, never as passed-exhaustively. Calls that fail in the warm-up are "
           "outside the statement."),
 )
@@ -128,7 +130,8 @@ CHECKS["C01"] = dict(
           "priorities) an UNSAT query shows that every supplied argument of every entered method is a member of the declared annotation by its "
           "documented meaning; a handler invoked with a positional count or keyword set it does not accept surfaces as Python's own binding error "
           "and is a violation. Value-dependent annotations are decided by the CrossHair harnesses of C10/C11 (method bodies assert their condition)."),
-    note=("Bounds: 3 classes, 2-3 methods, 4 calls per set, 700 sampled sets quick / 9000 thorough, 10 s / 60 s exploration budget per set. Pure safety: "
+    note=("Bounds: 3 classes, 2-3 methods, 4 calls per set, 700 sampled sets quick / 9000 thorough, 10 s / 60 s exploration budget per set; plus three CrossHair "
+          "harness modules (keyword-only Literal / Dependent parameters, positional Literal / Dependent / tuple[...] mix) whose bodies re-check their own conditions. Pure safety: "
           "which method or error is C02's subject. Native validation compares verdicts, not observations, because the sets include types with the "
           "recorded order-dependence (C06)."),
 )
@@ -152,7 +155,7 @@ CHECKS["C15"] = dict(
           "Annotated, string annotations, list[A] / typing.List[A], Literal value reorderings) and each surrounding method set, two functions are built "
           "and probed with the same arguments once per class of (hierarchy, priorities); every probe must have the same outcome. The pair and surround "
           "enumeration is exhaustive within the listed universe and the solver exhausts each pair's hierarchy/priority space."),
-    note=("Bounds: 3 classes, 26 spelling pairs x 12 surrounding sets, probes = instances, object(), None, small corpora of lists / literal values. "
+    note=("Bounds: 3 classes, 37 spelling pairs x 12 surrounding sets, probes = instances, object(), None, small corpora of lists / literal values. "
           "Differences explained by the recorded C06-asymmetric-typeorder mechanism (an applicable pair of registered types with non-mirror typeorder in "
           "BOTH functions) are excused per probe. Defect fixed: 47abe4c (Literal bound from first value)."),
 )
@@ -215,8 +218,8 @@ CHECKS["C19"] = dict(
           "possible switch point and the solver enumerates them all (one path class per schedule, plus 'no pre-emption'); a thread that would block on "
           "the function's build lock hands the turn back. Each thread's outcome must equal its outcome alone on a fresh function and afterwards every "
           "probe must equal the sequentially used function; a hang is a violation."),
-    note=("Bounds: 2 threads, 1 pre-emption at every line (quick: 5 scenarios, ~7800 schedules, exhaustive; thorough: 8 scenarios plus 2 pre-emptions on "
-          "every 40th first switch point), fixed hierarchy, line granularity (switches inside a line are outside the claim). The solver's role is "
+    note=("Bounds: 2 threads, 1 pre-emption at every line (quick: 6 scenarios, ~8200 schedules, exhaustive; thorough: 10 scenarios plus 2 pre-emptions on "
+          "a reduced set of first switch points), fixed hierarchy, line granularity (switches inside a line are outside the claim). The solver's role is "
           "finite-domain bookkeeping. Defect repaired: 537fde9 (unsynchronised lazy build)."),
 )
 
